@@ -131,3 +131,55 @@ class Repo(object):
 
     def sources_digest(self):
         return {m.name: m.sha for m in self._mods.values()}
+
+
+def loop_shape(fn_node):
+    """Loop skeleton of a function, the thing loop contracts are keyed on (by ordinal): for every loop in source order
+    its kind, whether a ``while`` test is the constant True, whether it has an ``else``, and how many ``break`` /
+    ``continue`` / ``return`` / ``yield`` statements belong to it directly (not to a nested loop or function).
+    Two versions of a function with different skeletons need different proof scripts."""
+    import ast as _ast
+    out = []
+
+    def own_counts(loop):
+        cnt = {"break": 0, "continue": 0, "return": 0, "yield": 0}
+
+        def walk(n, top):
+            for ch in _ast.iter_child_nodes(n):
+                if isinstance(ch, (_ast.FunctionDef, _ast.AsyncFunctionDef, _ast.Lambda, _ast.ClassDef)):
+                    continue
+                if isinstance(ch, (_ast.For, _ast.While)):
+                    # returns/yields of nested loops still leave/extend this loop; breaks/continues do not
+                    for g in _ast.walk(ch):
+                        if isinstance(g, _ast.Return):
+                            cnt["return"] += 1
+                        elif isinstance(g, (_ast.Yield, _ast.YieldFrom)):
+                            cnt["yield"] += 1
+                    continue
+                if isinstance(ch, _ast.Break):
+                    cnt["break"] += 1
+                elif isinstance(ch, _ast.Continue):
+                    cnt["continue"] += 1
+                elif isinstance(ch, _ast.Return):
+                    cnt["return"] += 1
+                elif isinstance(ch, (_ast.Yield, _ast.YieldFrom)):
+                    cnt["yield"] += 1
+                walk(ch, False)
+        walk(loop, True)
+        return cnt
+
+    def visit(n):
+        for ch in _ast.iter_child_nodes(n):
+            if isinstance(ch, (_ast.FunctionDef, _ast.AsyncFunctionDef, _ast.Lambda, _ast.ClassDef)) and ch is not fn_node:
+                continue
+            if isinstance(ch, _ast.While):
+                c = own_counts(ch)
+                const_true = isinstance(ch.test, _ast.Constant) and ch.test.value is True
+                out.append("while%s%s b%d c%d r%d y%d" % ("(True)" if const_true else "(cond)", "+else" if ch.orelse else "",
+                                                          c["break"], c["continue"], c["return"], c["yield"]))
+            elif isinstance(ch, _ast.For):
+                c = own_counts(ch)
+                out.append("for%s b%d c%d r%d y%d" % ("+else" if ch.orelse else "", c["break"], c["continue"], c["return"], c["yield"]))
+            visit(ch)
+    visit(fn_node)
+    return "; ".join(out)
